@@ -1,14 +1,19 @@
 import os
 ID = 'C12'
-LEVEL = 'exploration'
-CONTRACT_MODULES = []
-CONE = []
+LEVEL = 'proof'
+CONTRACT_MODULES = ['contracts.catfile']
+CONE = ['csep.core.catalogs.CSEPCatalog.load_ascii_catalogs']
 ORACLE_MODULES = ['rt.oracles_catfc']
 BOUNDED = os.path.exists(os.path.join(os.path.dirname(__file__), '..', 'rt', 'bounded_C12.py'))
-FLOAT_MODEL = 'n/a (concrete executions)'
-TRUSTED = ['the oracles in rt/ compute the expected outcome from the property statement, independently of the code under test', 'pyvc engine, z3 5.1']
-ASSUMPTIONS = ['the functions of this property are outside the deductive reach of the engine in this round (generators, file readers, recursion over tiles, whole-test pipelines): every clause is decided by the bounded run-time contract only; see DESIGN.md section 10']
-EXPLANATION = 'all encodings of n <= 4 (quick) / 5 (thorough) catalogs of 0..2 events x placeholder/omitted x header, decreasing ids rejected, random long-gap files: run-time contract of load_ascii_catalogs / load_catalog_forecast'
-TECHNIQUE = 'bounded stand-in: run-time form of the contracts on the real code (small-scope enumeration + directed cases), labelled bounded, nothing counted as proved'
-LEVEL_TEXT = 'exploration: bounded run-time contract on the real code; no clause of this property is claimed as proved'
-LEVEL_NOTE = 'bounded only; oracle independence trusted'
+FLOAT_MODEL = 'n/a: no arithmetic on the parsed numbers (they are carried as uninterpreted values of (row, column))'
+TRUSTED = ['csv.reader yields the rows of the file in order; float() / int() / == \'\' / .lower() on a field and strptime on the time field are uninterpreted functions of (row, column): the string layer is assumed',
+           'abstract event lists: sort RowList with NIL / APP and the selection ROWS(k, t) = non-placeholder rows s < t with id k, in file order (unfolding and emptiness laws given as instances)',
+           'the generator is identified with the sequence of values it yields (eager execution)',
+           'the class constructor cls(data=.., catalog_id=..) is an abstract record constructor (the real constructor: C14)',
+           'the oracles in rt/ compute the expected outcome from the property statement, independently of the code under test', 'pyvc engine, z3 5.1']
+ASSUMPTIONS = ['proved: the decoding state machine of load_ascii_catalogs for files of any number of rows - rows grouped by catalog id, placeholder rows, omitted catalogs before the first id and in gaps (inner loop invariant), the final catalog, event order, field order of an event, ids 0..n-1 in order, rejection of decreasing ids; at most one header row, at least one data row, placeholder rows empty throughout',
+               'not proved: that float() / strptime return the written numbers and instants (Python / C15), the wrappers load_stochastic_event_sets / load_catalog_forecast, files without trailing newline, more than one header line: bounded run-time contract']
+EXPLANATION = 'load_ascii_catalogs under contract: loop invariant over the rows (prev_id == id of the last row, ids non-decreasing so far, catalogs 0..prev_id-1 yielded as (k, ROWS(k, i)), pending events == ROWS(prev_id, i)), inner loop invariant over omitted catalogs, result == the catalogs 0..last id each with exactly its own non-placeholder rows in file order; second case: a file whose ids decrease cannot complete normally (ValueError); plus all encodings of n <= 4 (quick) / 5 (thorough) catalogs of 0..2 events x placeholder/omitted x header, random long-gap files by the bounded run-time contract'
+TECHNIQUE = 'contract on the real generator function (eager yield semantics), loop invariants for the row loop and the gap loops, abstract list sort for event lists, z3; bounded run-time contracts for the string layer and the wrappers'
+LEVEL_TEXT = 'proof of the decoding state machine for files of any length (string layer assumed); values of the parsed fields and the loader wrappers are bounded only'
+LEVEL_NOTE = 'string layer (float/int/strptime/csv) assumed as uninterpreted functions; eager generator semantics'
